@@ -164,6 +164,24 @@ LenOK(l, n, D) ==
 (* ---------- validity ---------- *)
 \* ctx: "field" at a struct-field position (property of an object), "decl" when the schema is reached
 \* as a declared type (definition or root), "elem" for array items of a declared array.
+\* What encoding/json's typed decode alone accepts for a value of an anonymous Go type built from
+\* schema s (no generated unmarshaler runs: no required / bounds / length checks) -- used by deviation
+\* "DeclaredArrayElemUnvalidated": object items of a DECLARED array type become an anonymous struct.
+RECURSIVE TypedOnly(_, _, _)
+TypedOnly(env, s, d) ==
+  IF d.t = "null" THEN TRUE
+  ELSE IF Has(s, "ref") \/ Has(s, "enum") \/ Has(s, "allOf") \/ Has(s, "anyOf") THEN TRUE
+  ELSE LET T == Main(s) IN
+    CASE T = "boolean" -> d.t = "bool"
+      [] T = "string"  -> d.t = "str"
+      [] T = "number"  -> d.t \in {"num", "big"}
+      [] T = "integer" -> d.t \in {"num", "big"} /\ IsIntegral(d)
+      [] T = "array"   -> d.t = "arr" /\ (Has(s, "items") =>
+                              \A i \in DOMAIN d.a : TypedOnly(env, s.items, d.a[i]))
+      [] T = "object"  -> d.t = "obj" /\ \A k \in PropNames(s) \cap ObjKeys(d) :
+                                             TypedOnly(env, PropSchema(s, k), ObjVal(d, k))
+      [] OTHER -> TRUE
+
 RECURSIVE Valid(_, _, _, _, _, _)
 RECURSIVE ValidObj(_, _, _, _)
 RECURSIVE ValidRef(_, _, _, _)
@@ -202,7 +220,10 @@ Valid(env, s, d, D, ctx, lim) ==
                            \cup {Valid(env, items, d.a[i], D, sub,
                                        IF Main(items) = "array" /\ ~Has(items, "ref") THEN l ELSE NoLim)
                                  : i \in DOMAIN d.a})
-         [] T = "object"  -> IF d.t # "obj" THEN Rej ELSE ValidObj(env, s, d, D)
+         [] T = "object"  -> IF d.t # "obj" THEN Rej
+                             ELSE IF ctx = "elem" /\ "DeclaredArrayElemUnvalidated" \in D
+                                  THEN B3(TypedOnly(env, s, d))
+                             ELSE ValidObj(env, s, d, D)
          [] OTHER -> Un
 
 ValidRef(env, s, d, D) ==
